@@ -65,6 +65,12 @@ def cases(draw, tier):
         "style": draw(st.sampled_from(["default", "scalar", "list", "dict", "stat"])),
         "fn": draw(st.sampled_from(["draw", "draw", "draw_nodes", "draw_hyperedges", "draw_simplices"])),
         "posmode": draw(st.sampled_from(["same", "same", "reversed", "extra"])),
+        # presentation options that must not change what is rendered where (None = leave the default)
+        "decor": draw(st.one_of(st.none(), st.fixed_dictionaries({
+            "node_labels": st.sampled_from([None, True, "dict"]), "hyperedge_labels": st.sampled_from([None, True, "dict"]),
+            "node_shape": st.sampled_from([None, "s", "^"]), "alpha": st.sampled_from([None, 1.0, 0.1]), "rescale_sizes": st.sampled_from([None, False]),
+            "aspect": st.sampled_from([None, "auto"]), "dyad_style": st.sampled_from([None, "dashed"]), "edge_lw": st.sampled_from([None, 2]),
+            "node_ec": st.sampled_from([None, "red"]), "hull": st.booleans()}))),
     }
 
 
@@ -175,16 +181,35 @@ def run_case(case, ctx):
         elif style == "stat":
             nkw = {"node_fc": H.nodes.degree, "node_size": H.nodes.degree}
             ekw = {"edge_fc": H.edges.size} if not sc else {}
+        dec = case.get("decor") or {}
+        hull = bool(dec.get("hull")) and not sc
+        if dec:
+            lab_n = {n: "n%d" % i for i, n in enumerate(nodes)}
+            lab_e = {e: "e%d" % i for i, e in enumerate(mem)}
+            if dec.get("node_labels") is not None:
+                nkw["node_labels"] = lab_n if dec["node_labels"] == "dict" else True
+            for k in ("node_shape", "node_ec", "rescale_sizes"):
+                if dec.get(k) is not None:
+                    nkw[k] = dec[k]
+            if dec.get("hyperedge_labels") is not None and not sc:
+                ekw["hyperedge_labels"] = lab_e if dec["hyperedge_labels"] == "dict" else True
+            for k in ("alpha", "dyad_style", "rescale_sizes") + (() if sc else ("edge_lw",)):
+                if dec.get(k) is not None:
+                    ekw[k] = dec[k]
+            if hull:
+                ekw["hull"] = True
         fig, ax = plt.subplots()
         nc = dc = ec = None
+        if fn == "draw" and dec.get("aspect") is not None:
+            ekw["aspect"] = dec["aspect"]
         if fn == "draw":
-            ax, (nc, dc, ec) = xgi.draw(H, pos=pos, ax=ax, max_order=mo, **nkw, **ekw)
+            ax, (nc, dc, ec) = xgi.draw(H, pos=pos, ax=ax, max_order=mo, **{**nkw, **ekw})
         elif fn == "draw_nodes":
             ax, nc = xgi.draw_nodes(H, pos=pos, ax=ax, **nkw)
         elif fn == "draw_hyperedges":
-            ax, (dc, ec) = xgi.draw_hyperedges(H, pos=pos, ax=ax, max_order=mo, **ekw)
+            ax, (dc, ec) = xgi.draw_hyperedges(H, pos=pos, ax=ax, max_order=mo, **{k: v for k, v in ekw.items() if k != "aspect"})
         else:
-            ax, (dc, ec) = xgi.draw_simplices(H, pos=pos, ax=ax, max_order=mo, **{k: v for k, v in ekw.items() if k != "edge_fc" or not isinstance(v, dict)})
+            ax, (dc, ec) = xgi.draw_simplices(H, pos=pos, ax=ax, max_order=mo, **{k: v for k, v in ekw.items() if k not in ("aspect", "hull") and (k != "edge_fc" or not isinstance(v, dict))})
         ctx.event("drew:" + fn + ":" + style)
         if nc is not None:
             off = np.asarray(nc.get_offsets(), float)
@@ -194,7 +219,10 @@ def run_case(case, ctx):
             got = collections.Counter(frozenset(key(q) for q in s) for s in dc.get_segments())
             want = collections.Counter(frozenset(key(pos[v]) for v in mem[e]) for e in dy_ids)
             ctx.check(got == want, ("draw", fn, "dyad-lines"), lambda: "max_order %r: %d segments, expected %d; members %r" % (mo, sum(got.values()), sum(want.values()), {e: sorted(map(repr, m)) for e, m in mem.items()}))
-        if ec is not None:
+        if ec is not None and hull:
+            # convex hulls with a margin: one patch per larger edge, not the members' positions themselves
+            ctx.check(len(ec.get_paths()) == len(poly_sets), ("draw", fn, "hull-count"), lambda: "%d hulls for %d edges" % (len(ec.get_paths()), len(poly_sets)))
+        elif ec is not None:
             got = collections.Counter(frozenset(key(q) for q in path.vertices) for path in ec.get_paths())
             want = collections.Counter(frozenset(key(pos[v]) for v in m) for m in poly_sets)
             ctx.check(got == want, ("draw", fn, "polygons"), lambda: "max_order %r: %d polygons, expected %d; members %r" % (mo, sum(got.values()), sum(want.values()), {e: sorted(map(repr, m)) for e, m in mem.items()}))
